@@ -185,8 +185,14 @@ def gen_enc(chk, program, rule='GEN-ENC', mask_rule='ENC-MASK', want=('table', '
             chk.check(len(rows) == len(d.fields), rule, f"{fname}::piece-count", file=PG, line=line, func=fname, expected=len(d.fields), found=len(rows))
             for (g, term, ln2) in t.raises:
                 # raises guarded only by "field is None" are dead code (get_field_by_id raises itself); others are reported
-                if not all(_is_field_none_guard(x) for x in sym.conj(g)[-1:]):
-                    chk.violation(rule, f"{fname}::raise", file=PG, line=ln2, func=fname, expected='no raise in an encodable definition', found=show(term))
+                last = sym.conj(g)[-1:]
+                if all(_is_field_none_guard(x) for x in last):
+                    continue
+                # a rejection of an over-wide value is what C09 asks for: a raise whose deciding condition compares a producer of this encoder with constants
+                prods = [r_['V'] for r_ in rows]
+                if last and any(any(y == v for y in sym.walk(last[0])) for v in prods) and any(y[0] == 'cmp' or (y[0] == 'binop' and y[1] == '>>') for y in sym.walk(last[0])):
+                    continue
+                chk.violation(rule, f"{fname}::raise", file=PG, line=ln2, func=fname, expected='no raise in an encodable definition (other than rejecting a value that does not fit its field)', found=show(term))
         for i, f in enumerate(d.fields):
             if i >= len(rows):
                 break
@@ -364,17 +370,40 @@ def enc_producer(chk, program, sites, rule='ENC-PRODUCER'):
         if k in ('NUMBER', 'FLOAT'):
             chk.ok(rule, inst, file=PG, line=t.s['line'], func=fname, found=k, nontrivial=True)
         elif k in UNCHECKED:
-            if _has_width_check(row['V'], f.bit_length):
+            if _has_width_check(row['V'], f.bit_length, t):
                 chk.ok(rule, inst, file=PG, line=t.s['line'], func=fname, found=k + '+width-check')
             else:
                 chk.violation(rule, inst, file=PG, line=t.s['line'], func=fname, expected='value rejected when it does not fit BitLength', found=k,
                               detail=UNCHECKED[k] + f" ({f.bit_length} bits): an over-wide value is silently truncated", group=k)
     chk.unit('producers', counts)
 
-def _has_width_check(V, bits):
+def _has_width_check(V, bits, table=None):
+    """the value reaching the mask is rejected when it does not fit: recognised shapes
+       (a) an explicit raise of the encoder whose guard compares this producer term with constants bounding it by the field width
+           (`if not 0 <= field_value <= 0xFF: raise ...`, `if field_value >> 8: raise ...`, `if field_value.bit_length() > 8: raise ...`);
+       (b) the producer wrapped in a helper call that takes the width (any call whose argument list holds the producer and the constant BitLength or mask)"""
+    top = (1 << bits) - 1
     for s in sym.walk(V):
-        if s[0] == 'call' and s[1][0] == 'name' and 'width' in s[1][1] or (s[0] == 'call' and s[1][0] == 'name' and s[1][1].startswith('check_')):
-            return True
+        if s[0] == 'call' and s[1][0] == 'name' and not s[1][1].startswith(('encode_', 'lookup_encode_', 'int', 'round')):
+            consts = [a[1] for a in s[2] if sym.is_const(a)] + [v[1] for _, v in s[3] if sym.is_const(v)]
+            if any(c in (bits, top, top + 1) for c in consts):
+                return True
+    if table is None:
+        return False
+    for (g, term, ln) in table.raises:
+        for c in sym.conj(g):
+            mentions = any(x == V for x in sym.walk(c))
+            if not mentions:
+                continue
+            for x in sym.walk(c):
+                if x[0] == 'cmp' and x[1] in ('<', '<=', '>', '>=', '!=', '=='):
+                    for a, b in ((x[2], x[3]), (x[3], x[2])):
+                        if sym.is_const(b) and isinstance(b[1], int) and b[1] in (top, top + 1, bits, 0):
+                            inner = [y for y in sym.walk(a) if y == V]
+                            if inner and b[1] != 0:
+                                return True
+                if x[0] == 'binop' and x[1] == '>>' and x[2] == V and x[3] == C(bits):
+                    return True
     return False
 
 def lookup_inv(chk, program, rule='LOOKUP-INV'):
